@@ -77,6 +77,35 @@ def gen_c07(g, lines, k):
         g.count("wire_c07_%s_%s" % (tr, "rcvd" if rcvd else "norcvd"))
     lines.append("wire end")
 
+def gen_c07_two(g, lines, k):
+    """one service, two listeners with DIFFERENT no-received settings, in both orders: each listener stamps (or
+    does not stamp) according to its own setting, whatever the others say"""
+    base = 21000 + NONCE * 800 + 640 + k * 14
+    lip = "127.0.0.1"
+    P1, T1, P2, T2, BP, UP, VP = base, base + 1, base + 2, base + 3, base + 4, base + 5, base + 6
+    first_off = (k % 2 == 0)                 # which of the two listeners has no-received: true
+    nr = [first_off, not first_off]
+    be = "127.0.1.1:%d" % BP
+    y = "proxies:\n- name: svc.test\n  listens:\n"
+    for (P, T, off) in ((P1, T1, nr[0]), (P2, T2, nr[1])):
+        y += "  - address: %s\n    udp-port: %d\n    tcp-port: %d\n" % (lip, P, T)
+        if off:
+            y += "    no-received: true\n"
+        y += "    backends:\n    - udp://%s\n" % be
+    lines.append("wire start %s" % hx(y))
+    lines.append("wire bind %s" % hx(be))
+    ua = "127.0.2.1:%d" % UP
+    lines.append("wire bind %s" % hx(ua))
+    for li, (P, off) in enumerate(((P1, nr[0]), (P2, nr[1]))):
+        v = Via("UDP", "127.0.2.9", VP, [("branch", "z9hG4bK" + g.word(ALNUM.upper(), 6, 9)), ("rport", "")])
+        req = msg("OPTIONS sip:svc.test SIP/2.0", [("Via", v.text()), ("From", "<sip:a@ua.test>;tag=1"), ("To", "<sip:b@svc.test>"), ("Call-ID", g.word(ALNUM, 8, 12)), ("CSeq", "1 OPTIONS")])
+        lines.append("wire udp %s %s %s" % (hx(ua), hx("%s:%d" % (lip, P)), hx(req)))
+        own = "SIP/2.0/UDP %s:%d;branch=%s" % (lip, P, BR)
+        exp_v = v if off else v.stamped("127.0.2.1", UP)
+        lines.append("wire recv %s 800 msg=%s # spec=C07 dest U %s # spec=C07 vias %s" % (hx(be), hx(req), hx(be), hxs([own, exp_v.text()])))
+        g.count("wire_c07_two_listener_%d_%s" % (li, "norcvd" if off else "rcvd"))
+    lines.append("wire end")
+
 def gen_c07_outbound(g, lines, k):
     """a listener created for a connection the proxy dialed itself (tcp:// backend): the backend talks back
     over that connection; its requests must be stamped like any other (received-support on)"""
@@ -113,4 +142,5 @@ def generate(seed, tier, focus="c07"):
             gen_c07(g, lines, k)
             if k < (2 if tier == "quick" else 20):
                 gen_c07_outbound(g, lines, k)
+                gen_c07_two(g, lines, k)
     return lines, g.stats
